@@ -1,5 +1,6 @@
 import Failsafe.Conc.BreakerConc
 import Failsafe.Props.C03
+import Failsafe.Lemmas.ExecBodiesLink
 /-!
 # C04 — an open breaker admits nothing; half-open admits at most its trial capacity
 
@@ -50,5 +51,43 @@ theorem stale_record_breaks_bound_witness :
 
 example : (([Act.enter 0, .finishRun 0 .open_, .enter 1, .tick, .enter 2, .enter 3] : List Act).foldlM (m := Option) step (init 1 4)).map
     (fun s => (s.tag, s.permits, s.ths)) = some (.halfOpen, 0, [.done, .rejected, .trial, .rejected]) := by decide
+
+/-! ## On the regenerated bodies of the breaker executor
+
+`ExecBodies.breakerPre / breakerOnSuccess / breakerOnFailure` are the reference definitions the executor's `PreExecute`, `OnSuccess`
+and `OnFailure` — regenerated from the source on every run — are proved equal to (`Tie/XAdmit.lean`), for every instantiation of the
+breaker's own operations; `breaker_link` shows that the composition model's breaker layer is `PreExecute`, then what is inside, then
+`BaseExecutor.PostExecute` with these two. -/
+section kernel
+open Failsafe Failsafe.ExecBodies
+
+/-- **a refused admission fails with `ErrOpen` and nothing inside runs** (the executor returns before the inner call); an admitted one
+goes on -/
+theorem kernel_admission {σ : Type} (ops : AdmitOps σ) (s : σ) :
+    (ops.tryV s = false → (breakerPre ops s).1 = some (failureResult Err.opened)) ∧ (ops.tryV s = true → (breakerPre ops s).1 = none) := by
+  constructor <;> intro h <;> simp [breakerPre, h]
+
+/-- **every admitted execution's result is recorded exactly once**, after the policy's own listener: a success as a success, a
+failure as a failure; the result is handed on unchanged -/
+theorem kernel_records_once {σ : Type} (ops : AdmitOps σ) (s : σ) (r : PR) :
+    breakerOnSuccess ops s r = ops.recordSuccess (ops.baseOnSuccess s r) ∧
+    breakerOnFailure ops s r = (r, ops.recordFailure (ops.baseOnFailure s r) r) := ⟨rfl, rfl⟩
+
+/-- **the composition model's breaker layer is the code's** -/
+theorem model_breaker_layer_is_the_codes (fuel pos id : Nat) (h : List Failsafe.Classify.Cond) (inner : Failsafe.Exec.Layer) (r : Failsafe.Exec.Run)
+    (c : Failsafe.Breaker.Cfg) (b : Failsafe.Breaker.B) (hb : r.w.breakers[id]? = some (c, b)) :
+    Failsafe.Exec.applyPolicy fuel pos (.breaker id h) inner r =
+      (let ops := Failsafe.Lemmas.ExecBodiesLink.breakerOps id pos c
+       match ExecBodies.breakerPre ops r with
+       | (some rej, r1) => some (rej, r1)
+       | (none, r1) =>
+         match inner r1 with
+         | none => none
+         | some (res, r2) =>
+           some (ExecBodies.postExecute (fun er => Failsafe.Classify.isFailure h er.outcome) (fun s er => ExecBodies.breakerOnFailure ops s er)
+                   (fun s er => ExecBodies.breakerOnSuccess ops s er) r2 res)) :=
+  Failsafe.Lemmas.ExecBodiesLink.breaker_link fuel pos id h inner r c b hb
+
+end kernel
 
 end Failsafe.Props.C04
